@@ -117,7 +117,8 @@ func rollupSwitchNodes(nodes []node) []node {
 		}
 		group.child = append(group.child, n)
 	}
-	if len(group.child) > 0 {
+	// The last group counts even when its body is empty ("{% case 10 %}{% endswitch %}" must match and print nothing).
+	if group.typ != -1 {
 		r = append(r, group)
 	}
 	return r
